@@ -355,6 +355,10 @@ public:
 
     void compute(ConstGenericMatrix& mat)
     {
+        // The results of an earlier compute() are gone as soon as this one starts:
+        // if it throws, the accessors must not hand back stale or unfinished numbers
+        m_computed = false;
+
         using std::abs;
         using std::sqrt;
 
